@@ -38,6 +38,10 @@ func (t *Tracer) trace(c context.Context, pgid int) (result runner.Result) {
 	go func() {
 		<-cc.Done()
 		killAll(pgid)
+		if c.Err() != nil {
+			// cancelled by the caller: the child may not have created its process group yet (before setsid)
+			unix.Kill(pgid, unix.SIGKILL)
+		}
 	}()
 
 	sTime := time.Now()
